@@ -14,7 +14,7 @@ CORE = ['a', ' ', '{', '}', '{{', '}}', '!r', ':', '=', '(', ')', '[', ']', '"',
 WRAPPERS = [("f'", "'"), ("f'''", "'''"), ("rf'", "'"), ('F"', '"')]
 
 EXPRS = ['a', 'a.b', 'a[0]', 'a["k"]', 'a[1:2]', 'a == b', 'a != b', 'a < b', '(a := 1)', '(lambda: 1)', '(lambda x: x)(1)', '{1: 2}[1]', '{1, 2}', '[x for x in a]', 'a if b else c',
-         '"s"', '"""t"""', 'not a', '-a', 'a or b', 'f(a, b=1)', '(a, b)', 'a,', '*a, b', 'yield', 'await a', '3.', '1_0', "b'x'", 'a is not b', 'a  ', '  a', '(a)', '((a))', 'é', '名[é]']
+         '"s"', '"""t"""', 'not a', '-a', 'a or b', 'f(a, b=1)', '(a, b)', 'a,', '*a, b', 'yield', 'await a', '3.', '1_0', "b'x'", 'a is not b', 'a  ', '  a', '(a)', '((a))', 'é', '名[é]', '(a),(b)', '(a)+(b)', '(a)for a in (b)', '(a)if(b)else(c)', '(a).b(c)', 'a["é"]', '"é€"', '(a)\n+(b)']
 CONVS = ['', '!r', '!s', '!a', ' !r', '!r ']
 SPECS = ['', ':', ':x', ':>10', ':{w}', ':{w}.{p}', ':>{w}x', ':{w!r}', ':{w:{p}}', ':é', ': ', ':}}', ':{{', ':\\n', ':\\x41', ':!r', '::', ':=', ':{{1:2}[1]}', ':{ {1:2}[1]}', ':{w}.{{2}.pop()}f', ':{{{w}}}']
 EQS = ['', '=', ' = ', '= ', ' =', '=\t', '=\n', '= \x0c']
@@ -22,7 +22,7 @@ PIECES = [('', ''), ('x', 'y'), ('{{', '}}'), ('\\n', '\\t'), ('é', '名'), ('\
 
 
 def field_product(tier):
-    exprs = EXPRS if tier == 'thorough' else EXPRS[:20]
+    exprs = EXPRS if tier == 'thorough' else EXPRS[:20] + EXPRS[-8:]
     for e, c, s, q, (l, r) in itertools.product(exprs, CONVS, SPECS, EQS, PIECES):
         body = '%s{%s%s%s%s}%s' % (l, e, q, c, s, r)
         yield "f'%s'" % body
